@@ -61,7 +61,10 @@ func (n *UnhygienicNode) String() string {
 }
 
 func (n *UnhygienicNode) IsStatic() bool {
-	return n.IsStatic()
+	if expr, ok := n.Node.(ExpressionNode); ok {
+		return expr.IsStatic()
+	}
+	return false
 }
 
 func (*UnhygienicNode) Class() *value.Class {
